@@ -378,6 +378,12 @@ fn dict(x: u8, k: felt252) -> %(t)s {
     let _ = d.get(5);
     r
 }
+fn chk_dict_single_key(x: u8, k: felt252) -> bool {
+    let mut d: Felt252Dict<%(t)s> = Default::default();
+    d.insert(k, mk(x ^ 0x55));
+    d.insert(k, mk(x));
+    d.get(k) == mk(x)
+}
 fn dict_entry(x: u8, k: felt252) -> %(t)s {
     let mut d: Felt252Dict<%(t)s> = Default::default();
     let (e, prev) = d.entry(k);
